@@ -144,9 +144,9 @@ Definition c11_expected (c : c11_case) : obs :=
     OT "C11" [
       (* base offset and length of each file, as AddFile assigned them *)
       OL (map (fun f => OL [ON (f_offset f); ON (f_len f)]) (fs_files fs));
-      (* FileSet.Position(p).String() and ErrorWithPosition for every probed position *)
+      (* FileSet.Position(p).String() and ErrorWithPosition of the error "e%d" for every probed position *)
       OL (map (fun p => OL [obs_outcome (fun o => OS (opt_position_string o)) (fs_position fs p);
-                            obs_outcome OS (error_with_position fs [101] p)]) positions);
+                            obs_outcome OS (error_with_position fs [101; 37; 100] p)]) positions);
       (* File.Position(c).String() for every file and every c in 0..len+1 (of a file longer than 2000 bytes: the
          first and the last 200 of them); File.Pos(c) *)
       OL (map (fun f => OL (map (fun c => OL [obs_outcome (fun o => OS (opt_position_string o)) (file_position f c);
